@@ -1727,6 +1727,8 @@ impl<T: ArrayValue> Array<T> {
                 *d += 1;
             }
         }
+        // Validate the result shape before multiplying it out
+        validate_size::<T>(outer_shape.iter().chain(&cell_shape).copied(), env)?;
         let outer_size: usize = outer_shape.iter().product();
         if indices.is_empty() {
             return Ok(if indices_shape.contains(&0) {
